@@ -82,6 +82,7 @@ func (prop) Extra(rng *rand.Rand, tier string) corr.ExtraResult {
 		"with_nonempty_aggregate_commit":  atomic.LoadInt64(&cntForgedWithAgg),
 		"at_or_below_largest_height":      atomic.LoadInt64(&cntLowerForge),
 		"crash_at_handoff_checks":         atomic.LoadInt64(&cntCrashChecks),
+		"with_validator_change":           atomic.LoadInt64(&cntForgedVChange),
 		"contradictions_on_nonbetter_tip": atomic.LoadInt64(&cntNonBetterContra),
 	}
 	return res
